@@ -132,10 +132,40 @@ func vfC14ReproPromo(t *testing.T) (render, failure string, err error) {
 	return render, "", nil
 }
 
+// vfC14ReproLeak: found by the C14 state machine (dangling-stub input dimension).
+func vfC14ReproLeak(t *testing.T) (render, failure string, err error) {
+	render = `cross-cluster versioning off; Put(x,{_attachments:{a:"AAAA"}}) -> 1-..; Put(x,{_rev:1-..,_attachments:{a:{stub,digest,revpos:1},c:{stub:true}}}) -> accepted; Put(x,{_rev:2-..}) (no attachments); data document of "AAAA"`
+	env, err := vfC14ReproOpen(t, false)
+	if err != nil {
+		return render, "", err
+	}
+	defer env.Close()
+	ctx := env.Ctx
+	content := []byte("AAAA")
+	r1, _, err := env.Coll.Put(ctx, "x", Body{"v": 1, BodyAttachments: map[string]any{"a": map[string]any{"data": content}}})
+	if err != nil {
+		return render, "", err
+	}
+	r2, _, err := env.Coll.Put(ctx, "x", Body{"v": 2, BodyRev: r1, BodyAttachments: map[string]any{
+		"a": map[string]any{"stub": true, "digest": vfC14Digest(content), "revpos": float64(1)},
+		"c": map[string]any{"stub": true}}})
+	if err != nil {
+		// the unresolvable stub is refused: nothing to reproduce
+		return render, "", nil
+	}
+	if _, _, err = env.Coll.Put(ctx, "x", Body{"v": 3, BodyRev: r2}); err != nil {
+		return render, "", err
+	}
+	if _, err := env.Coll.GetAttachment(ctx, MakeAttachmentKey(AttVersion2, "x", vfC14Digest(content))); err == nil {
+		return render, `the data document of "AAAA" still exists although the only leaf (3-..) has no attachments`, nil
+	}
+	return render, "", nil
+}
+
 func TestVerif_C14_Known(t *testing.T) {
 	rec := kit.New(vfC14ID, "Known")
 	defer rec.Flush()
-	for _, rp := range []vfC14Repro{{vfC14Sig13, vfC14Repro13}, {vfC14SigPromo, vfC14ReproPromo}} {
+	for _, rp := range []vfC14Repro{{vfC14Sig13, vfC14Repro13}, {vfC14SigPromo, vfC14ReproPromo}, {vfC14SigLeak, vfC14ReproLeak}} {
 		render, failure, err := rp.run(t)
 		rec.Class("reproductions", 1)
 		switch {
